@@ -68,6 +68,7 @@ type Exec struct {
 	safetyCount  map[string]int
 	files        map[string][]byte
 	ghostCalls   map[string]int
+	onceAssumed  map[string]bool
 }
 
 func NewExec(prog *Program, cs *ContractSet, unit *FuncUnit, uc *UnitContract) *Exec {
@@ -97,6 +98,14 @@ func (x *Exec) assumeGlobal(t *Term, lbl string) {
 	if t.IsTrue() {
 		return
 	}
+	if x.onceAssumed == nil {
+		x.onceAssumed = map[string]bool{}
+	}
+	key := termString(t)
+	if x.onceAssumed[key] {
+		return
+	}
+	x.onceAssumed[key] = true
 	x.assumptions = append(x.assumptions, Assump{T: t, Lbl: lbl})
 }
 
@@ -244,8 +253,45 @@ func constToTerm(v constant.Value, t types.Type) *Term {
 func (x *Exec) eval(e ast.Expr, st *State, sp *SpecCtx) Value {
 	if sp == nil {
 		if tv, ok := x.info.Types[e]; ok && tv.Value != nil {
-			if t := constToTerm(tv.Value, tv.Type); t != nil {
-				return Value{T: tv.Type, Term: t}
+			isFloat := tv.Value.Kind() == constant.Float
+			if b, ok := tv.Type.Underlying().(*types.Basic); ok && b.Info()&types.IsFloat != 0 {
+				isFloat = true
+			}
+			if !isFloat {
+				if t := constToTerm(tv.Value, tv.Type); t != nil {
+					return Value{T: tv.Type, Term: t}
+				}
+			} else {
+				// float constants: use the exact source value (go/types records the float64-rounded one);
+				// literals are parsed exactly, named constants use their declared exact value, constant
+				// expressions are evaluated structurally.
+				switch ce := e.(type) {
+				case *ast.BasicLit:
+					v := x.evalLit(ce)
+					v.Term = ToReal(v.Term)
+					v.T = tv.Type
+					return v
+				case *ast.Ident:
+					if c, ok := x.info.Uses[ce].(*types.Const); ok {
+						if t := constToTerm(c.Val(), types.Typ[types.Float64]); t != nil {
+							return Value{T: tv.Type, Term: t}
+						}
+					}
+				case *ast.SelectorExpr:
+					if c, ok := x.info.Uses[ce.Sel].(*types.Const); ok {
+						if t := constToTerm(c.Val(), types.Typ[types.Float64]); t != nil {
+							return Value{T: tv.Type, Term: t}
+						}
+					}
+				case *ast.CallExpr:
+					// conversion of a constant, e.g. float64(3)
+					if len(ce.Args) == 1 {
+						v := x.eval(ce.Args[0], st, sp)
+						if v.Term != nil {
+							return Value{T: tv.Type, Term: ToReal(v.Term)}
+						}
+					}
+				}
 			}
 		}
 	}
@@ -257,6 +303,19 @@ func (x *Exec) eval(e ast.Expr, st *State, sp *SpecCtx) Value {
 	case *ast.Ident:
 		return x.evalIdent(e, st, sp)
 	case *ast.SelectorExpr, *ast.IndexExpr, *ast.StarExpr:
+		if sel, ok := e.(*ast.SelectorExpr); ok && sp != nil {
+			if id, ok := sel.X.(*ast.Ident); ok {
+				if _, shadowed := sp.bound[id.Name]; !shadowed {
+					if pn, ok := x.lookupObj(id, sp).(*types.PkgName); ok {
+						if c, ok := pn.Imported().Scope().Lookup(sel.Sel.Name).(*types.Const); ok {
+							if t := constToTerm(c.Val(), c.Type()); t != nil {
+								return Value{T: c.Type(), Term: t}
+							}
+						}
+					}
+				}
+			}
+		}
 		if sel, ok := e.(*ast.SelectorExpr); ok && sp == nil {
 			// package-qualified function or method value handled by call; constants handled above
 			if s, ok := x.info.Selections[sel]; ok && s.Kind() != types.FieldVal {
@@ -1662,6 +1721,7 @@ func (x *Exec) loopModset(s ast.Stmt, st *State, run func(*State) []*State) map[
 	x.dry--
 	x.assumptions = x.assumptions[:savedAss]
 	x.obligations = x.obligations[:savedObs]
+	x.onceAssumed = nil
 	x.loopModCache[s] = mod
 	return mod
 }
